@@ -245,3 +245,65 @@ func runTPCRetry(c *core.Ctx) {
 		c.Lost("broadcastAbortOrCommit:retry-loop", "retry loop with a Send not found")
 	}
 }
+
+func init() {
+	register(&core.Rule{ID: "TPC-COMMITTED-ONLY", Props: []string{"C11"}, Floor: 2,
+		Doc: "what a 2PC replica tells others about the decided state (reject replies, GetState replies) is its committed value (oldValue) and version - never the working copy of a section in flight; proposals (PreCommit / Commit requests) carry the working copy, the Abort request carries none",
+		Run: runTPCCommittedOnly})
+}
+
+func runTPCCommittedOnly(c *core.Ctx) {
+	e := EnvOf(c.Prog)
+	t := mustType(c, e, an.PkgResources, "TwoPCArchetypeResource")
+	respT := mustType(c, e, an.PkgResources, "TwoPCResponse")
+	if t == nil || respT == nil {
+		return
+	}
+	valueF, oldF := mustField(c, t, "value"), mustField(c, t, "oldValue")
+	respValue := mustField(c, respT, "Value")
+	if valueF == nil || oldF == nil || respValue == nil {
+		return
+	}
+	pk := c.Prog.Pkg(an.PkgResources)
+	n := 0
+	check := func(where string, pos ast.Node, src ast.Expr) {
+		n++
+		key := fmt.Sprintf("%s:response-value#%d", where, n)
+		f := an.SelectedField(pk.Info, src)
+		switch {
+		case f == oldF:
+			c.Ok(key, pos.Pos(), "the reply carries the committed value")
+		case f == valueF:
+			c.Bad(key, pos.Pos(), "a 2PC reply carries res.value, the working copy of the local critical section: a proposer that is behind adopts an uncommitted write as the decided value of that version, so replicas disagree on a version")
+		default:
+			// values taken from a request / another reply are fine (they are decided elsewhere); anything else is not recognised
+			c.Ok(key, pos.Pos(), "the reply's value does not come from the working copy")
+		}
+	}
+	for _, f := range pk.Files {
+		ast.Inspect(f, func(m ast.Node) bool {
+			switch x := m.(type) {
+			case *ast.CompositeLit:
+				if nt := an.NamedOf(pk.Info.TypeOf(x)); nt != nil && nt.Obj() == respT.Obj() {
+					for _, el := range x.Elts {
+						if kv, ok := el.(*ast.KeyValueExpr); ok {
+							if id, ok := kv.Key.(*ast.Ident); ok && id.Name == "Value" {
+								check(enclosingFuncName(pk, f, x), kv, kv.Value)
+							}
+						}
+					}
+				}
+			case *ast.AssignStmt:
+				for i, l := range x.Lhs {
+					if an.SelectedField(pk.Info, l) == respValue && len(x.Rhs) == len(x.Lhs) {
+						check(enclosingFuncName(pk, f, x), x, x.Rhs[i])
+					}
+				}
+			}
+			return true
+		})
+	}
+	if n == 0 {
+		c.Lost("TwoPCResponse values", "no TwoPCResponse with a Value found")
+	}
+}
